@@ -56,6 +56,23 @@ def run(ctx):
             break
         ctx.report("lists %s, request %s: %s: spec %s, code %s" % (m.get("lists"), m.get("query"), m["why"], m.get("expected"), m.get("got")),
                    {"reexec": ["replay-dns"], "input": [m["case"]], "pool": json.load(open(pool))}, {"cause": m["why"].split(":")[0]})
+    # ---- code -> spec: hosts file + DNS filter of the repository ----
+    tr = os.path.join(ctx.work, "dns-trace.ndjson")
+    quick = ctx.tier == "quick"
+    d = ctx.vh(["drive-dnslists", "n=%d" % (600 if quick else 12000), "rules=%d" % (4000 if quick else 40000), "out=" + tr], timeout=3000)
+    nev, rejects = ctx.validate_trace("Trace_DNSEngine", tr, chunk=3000, procs=(2 if quick else 8))
+    ctx.validated += nev - len(rejects)
+    ctx.evaluations += nev
+    ctx.nontrivial += d["non_empty"]
+    ctx.extra["list_entries"] = d["entries"]
+    ctx.extra["list_events"] = nev
+    ctx.extra["list_events_skipped_badfilter"] = d["skipped_badfilter"]
+    if rejects:
+        events = vf.read_ndjson(tr)
+        for rj in rejects[:30]:
+            e = events[rj["l"] - 1]
+            ctx.report("real-world lists, hostname %s: reference %s, engine %s" % (e["host"], str(rj["spec"])[:300], str(rj["code"])[:300]),
+                       {"reexec": ["drive-dnslists"], "host": e["host"], "seed": ctx.seed}, {"cause": "real-lists"})
     ctx.exhaustive = True
 
 
